@@ -845,6 +845,14 @@ def oracle_failures(out_lines, K):
                 fails.append((i, "reused (multi-threaded) context output differs from fresh context output: " + ln[:300], None))
             if d.get("wtbad", "0") != "0":
                 fails.append((i, "a worker context's table holds an index above its current index: " + ln[:300], None))
+        if t == "M":
+            if d.get("exact") != "1" or d.get("jexact") != "1":
+                fails.append((i, "the 32-bit index of the serial LDM window of ZSTDMT wrapped: " + ln[:300], None))
+        if t == "T" and d.get("api") == "mtjobwrap":
+            if d.get("hang") == "1":
+                fails.append((i, "multithreaded frame stuck (a flush call never returns): " + ln[:300], "C15-zstdmt-job-counter-wraps"))
+            elif d.get("rt") != "1":
+                fails.append((i, "multithreaded frame does not round-trip: " + ln[:300], None))
         if "idx" in d and d["idx"].lstrip("-").isdigit():
             if not (0 <= int(d["idx"]) <= limit):
                 fails.append((i, "index out of the 32-bit range: " + ln[:300], None))
@@ -970,6 +978,71 @@ def ldm_probe_job(exe, freq, ncalls, tail, warp_idx, timeout=1500):
     return res
 
 
+KEY_MT_JOBS = "C15-zstdmt-job-counter-wraps"
+
+
+def mt_job_probe_job(exe, mexe, freq, nbw, start, nflush, chunk=1000):
+    """Finding probe (docs/C15.md 6.3): the per-frame job counters of ZSTDMT are 32 bits wide.  One multithreaded frame fed
+    through ZSTD_compressStream2 + ZSTD_e_flush (one job per call); after the first flush the counters are moved to
+    `start` (test device; 0 = pure public API).  The extracted model (MtJobs.v, opcode 19) predicts how many flush calls
+    return and the counters at that point; the watchdog of the harness reports a call that never returns."""
+    cmds = ["resetparams", "param %d 1" % P_LEVEL, "param %d %d" % (P_NBWORKERS, nbw), "nodict",
+            "mtjobwrap %d %d %d" % (start, nflush, chunk)]
+    t0 = time.time()
+    rc, lines, err = run_scenario(exe, 8, cmds, timeout=120)
+    tl = [parse_ctx_line(l) for l in lines if l.startswith("T ")]
+    res = dict(freq=freq, cmds=cmds, rc=rc, nbw=nbw, start=start, nflush=nflush, wall=time.time() - t0,
+               errors=[l[:200] for l in lines if l.startswith("E ")], real=None, model=None)
+    if tl:
+        d = tl[0]
+        res["real"] = dict(flushes=int(d["flushes"]), hang=int(d["hang"]), next=int(d["next"]), done=int(d["done"]), mask=int(d["mask"]), rt=int(d["rt"]))
+        s0 = start if start else 1          # counters when the observed flush calls begin (one job is done by then)
+        rc2, mout, e2 = run_lines(mexe, [str(freq)], [(19, [s0, s0, res["real"]["mask"], nflush], ())], 60)
+        if rc2 == 0 and len(mout) == 1:
+            m = ints(mout[0].replace(" ", ","))
+            res["model"] = dict(flushes=m[0], hang=int(m[0] < nflush), next=m[1], done=m[2], table_full=m[3], first_job=m[4])
+    return res
+
+
+def mt_ldm_load_job(exe, mexe, freq, cases):
+    """Unit-level tie of ZSTDMT_serialState_reset (+ the window update of the first job): the LDM window of the serial
+    state after loading a raw-content prefix of the given size (sparse zero mapping) is compared field by field with
+    mt_serial_ldm_load / mt_serial_ldm_job of the model (opcode 20), and its current index must be exact."""
+    cmds = ["resetparams", "param %d 1" % P_LEVEL, "param %d 1" % P_LDM, "nodict"]
+    cmds += ["mtldmload %d %d %d %d" % c for c in cases]
+    t0 = time.time()
+    rc, lines, err = run_scenario(exe, 8, cmds, timeout=600)
+    ml = [parse_ctx_line(l) for l in lines if l.startswith("M ")]
+    res = dict(freq=freq, cmds=cmds, rc=rc, wall=time.time() - t0, n=len(ml), mism=[], inexact=[],
+               errors=[l[:200] for l in lines if l.startswith("E ")])
+    if rc != 0 or len(ml) != len(cases):
+        res["mism"].append(("harness", "rc=%d lines=%d %s" % (rc, len(ml), err[-200:]), ""))
+        return res
+    model = []
+    for d, (dsz, fw, soff, ssz) in zip(ml, cases):
+        model.append((20, [int(d["lit"]), int(d["dict"]), dsz, fw, soff, ssz], ()))
+    rc2, mout, e2 = run_lines(mexe, [str(freq)], model, 120)
+    if rc2 != 0 or len(mout) != len(model):
+        res["mism"].append(("model", "rc=%d %s" % (rc2, e2[-200:]), ""))
+        return res
+    for d, mo, c in zip(ml, mout, cases):
+        real = ints(d["LW"]) + [int(d["llde"]), int(d["exact"])] + ints(d["JW"]) + [int(d["jexact"])]
+        mod = ints(mo.replace(" ", ","))
+        if real != mod:
+            res["mism"].append((c, mod, real))
+        if d["exact"] != "1" or d["jexact"] != "1":
+            res["inexact"].append((c, d["LW"], d["JW"]))
+    return res
+
+
+def bigprefix_job(exe, nbw, prefix_mib, ldm):
+    """The real thing for 6.4 (thorough): raw-content prefix of more than 4 GiB, LDM, nbWorkers, pure public API."""
+    t0 = time.time()
+    rc, out, err = core.sh([exe, str(nbw), str(prefix_mib), str(ldm)], timeout=1500)
+    return dict(rc=rc, out=out[-600:], err=err[-300:], nbw=nbw, prefix_mib=prefix_mib, ldm=ldm, wall=time.time() - t0,
+                ok=(rc == 0 and "equal=1" in out))
+
+
 def tie_job(name, freq, lines, cexe, mexe):
     mism = diff_runs(None, name, freq, lines, cexe, mexe, timeout=900)
     return dict(name=name, freq=freq, lines=lines, mism=mism)
@@ -1021,8 +1094,11 @@ def run(ctx):
                 edge = K["ZSTD_CURRENT_MAX"] - K["ZSTD_INDEXOVERFLOW_MARGIN"]
                 extra += ["resetparams", "param %d %d" % (P_LEVEL, rng.choice([1, 1, 3, 5])), "param %d %d" % (P_WLOG, rng.choice([17, 18, 20])),
                           "param %d %d" % (P_NBWORKERS, rng.choice([1, 2, 3])), "param %d %d" % (P_JOBSIZE, rng.choice([1 << 19, 1 << 20])),
-                          "param %d %d" % (P_LDM, rng.randint(0, 1)), "nodict",
-                          "mtstream %d %d 0" % ((24 << 20) if ctx.quick else (256 << 20), rng.randint(1, 1 << 30)),
+                          "param %d %d" % (P_LDM, rng.randint(0, 1)),
+                          # a prefix / dictionary goes to the first job as a CDict and, raw, to the serial LDM state
+                          rng.choice(["nodict", "prefix %d %d" % (rng.randint(0, 1 << 20), rng.choice([rng.randint(1, 64), rng.randint(1000, 4 << 20)])),
+                                      "dict %d %d" % (rng.randint(0, 1 << 20), rng.randint(8, 2 << 20))]),
+                          "mtstream %d %d 0" % ((24 << 20) if ctx.quick else (256 << 20), rng.randint(1, 1 << 30)), "nodict",
                           # a worker re-creates its index at every job start once it is within the margin, so only a job longer
                           # than ZSTD_INDEXOVERFLOW_MARGIN can cross ZSTD_CURRENT_MAX: 20 MiB jobs
                           "param %d %d" % (P_JOBSIZE, 20 << 20),
@@ -1043,11 +1119,41 @@ def run(ctx):
     if not ctx.quick:
         futs.append(("ldmprobe", pool.submit(ldm_probe_job, xexe[0], 0, U32 // 6 + 5000000, 64, 0)))
 
+    # ---- finding probe: ZSTDMT job counters (device; start 0 = control without the device)
+    futs.append(("mtjobs", pool.submit(mt_job_probe_job, xexe[0], mexe, 0, 1, 0, 24)))
+    for nbw in ((1, 3) if ctx.quick else (1, 2, 3, 4)):
+        nfl = 40
+        futs.append(("mtjobs", pool.submit(mt_job_probe_job, xexe[0], mexe, 0, nbw, U32 - rng.randint(8, nfl - 2), nfl)))
+    # ---- unit tie of the serial LDM state of ZSTDMT: prefix sizes around ZSTD_CURRENT_MAX and 2^32
+    cmax = K["ZSTD_CURRENT_MAX"]
+    lcases = [(rng.randint(1, 1 << 20), 0, rng.randint(0, 1 << 20), rng.randint(1, 1 << 20)),
+              (rng.randint(1, 1 << 20), 1, rng.randint(0, 1 << 20), rng.randint(1, 1 << 20)),
+              (rng.randint(1, 9), rng.randint(0, 1), rng.randint(0, 1 << 20), rng.randint(1, 9)),
+              (rng.choice([cmax - 3, cmax - 2, cmax - 1, cmax]), 0, rng.randint(0, 1 << 20), rng.randint(1, 1 << 20)),
+              (U32 + rng.randint(-3, 1 << 27), rng.randint(0, 1), rng.randint(0, 1 << 20), rng.randint(1, 1 << 20))]
+    if not ctx.quick:
+        lcases += [(U32 - 2, 0, 5, 1 << 20), (U32 - 3, 0, 5, 1 << 20), (cmax + rng.randint(1, 1 << 28), 0, 0, 70000), (3 * U32 // 2, 1, 9, 4096)]
+    futs.append(("mtldm", pool.submit(mt_ldm_load_job, xexe[0], mexe, 0, lcases)))
+    if not ctx.quick:
+        avail = 0
+        try:
+            for ln_ in open("/proc/meminfo"):
+                if ln_.startswith("MemAvailable:"):
+                    avail = int(ln_.split()[1]) >> 20
+        except (OSError, ValueError):
+            pass
+        if avail >= 16:
+            bexe = core.build_harness("c15_bigprefix", ["c15_bigprefix.c"], variant="o1", extra_flags=["-w"])
+            futs.append(("bigprefix", pool.submit(bigprefix_job, bexe, 1, 4160, 1)))
+        else:
+            ctx.notes["bigprefix_run"] = "skipped: MemAvailable %d GiB < 16 GiB" % avail
+
     # the proofs are checked while the ties run
     ctx.prove()
 
     problems = []     # (kind, freq, detail, concrete_replay or None)
     ldm_findings = []
+    mt_findings = []
     hist_bytes = {}
     for kind, f in futs:
         r = f.result()
@@ -1063,6 +1169,46 @@ def run(ctx):
             elif r["exact"] is None or r["rc"] != 0 or r["rt"] is not True:
                 problems.append(("ldm tiny-block probe", r["freq"], dict(arena_mb=8, cmds=r["cmds"], why="probe failed: rc=%s rt=%s %s" % (r["rc"], r["rt"], r["errors"][:2])),
                                  "LDM tiny-block probe: rc=%s round trip=%s %s" % (r["rc"], r["rt"], r["errors"][:1])))
+            continue
+        if kind == "mtjobs":
+            real, mod = r["real"], r["model"]
+            ctx.count(("mtjobs", r["nbw"], r["start"] != 0, real and real["hang"], real and real["rt"]))
+            ctx.cov["traces_validated_against_impl"] += 1
+            ctx.notes.setdefault("zstdmt_job_counter_probe", []).append(dict(nbWorkers=r["nbw"], start=r["start"], nflush=r["nflush"], real=real, model=mod, wall=round(r["wall"], 1)))
+            det = dict(arena_mb=8, cmds=r["cmds"], key=KEY_MT_JOBS)
+            if real is None or mod is None or r["rc"] != 0 or r["errors"]:
+                problems.append(("zstdmt job-counter probe", 0, dict(det, why="probe failed rc=%s %s" % (r["rc"], r["errors"][:2]), key=None), "ZSTDMT job-counter probe did not run: rc=%s %s" % (r["rc"], r["errors"][:1])))
+            elif (real["flushes"], real["hang"]) != (mod["flushes"], mod["hang"]) or (real["hang"] and (real["next"], real["done"]) != (mod["next"], mod["done"])):
+                concrete = None
+                if not real["hang"] and real["rt"] != 1:
+                    concrete = ("multithreaded frame of %d flush calls with its job counters moved to %d after the first one (test device = the state after that many "
+                                "ZSTD_e_flush calls of one frame) does not round-trip" % (r["nflush"], r["start"]))
+                problems.append(("zstdmt job-counter tie", 0, dict(det, model=mod, real=real, key=None, why=concrete or "model and code disagree"), concrete))
+            elif real["hang"]:
+                what = ("multithreaded frame stuck: nbWorkers=%d, job counters at %d after the first flush (test device = the state after that many "
+                        "ZSTD_e_flush calls of one frame), flush call number %d never returns: nextJobID = doneJobID = %d, jobIDMask = %d, the empty jobs "
+                        "table is declared full (nextJobID > (U32)(doneJobID + jobIDMask))" % (r["nbw"], r["start"], real["flushes"] + 1, real["next"], real["mask"]))
+                mt_findings.append((dict(kind="zstdmt job-counter probe", frequently=0, detail=dict(det, why=what)), what))
+            elif real["rt"] != 1:
+                problems.append(("zstdmt job-counter probe", 0, dict(det, why="frame does not round-trip", real=real, key=None),
+                                 "multithreaded frame of %d flush calls (job counters moved to %d) does not round-trip" % (r["nflush"], r["start"])))
+            continue
+        if kind == "mtldm":
+            ctx.count(("mtldm", r["n"], len(r["mism"]), len(r["inexact"])))
+            ctx.cov["traces_validated_against_impl"] += r["n"]
+            ctx.notes["zstdmt_serial_ldm_load_tie"] = dict(cases=r["n"], mismatches=len(r["mism"]), inexact=len(r["inexact"]), wall=round(r["wall"], 1))
+            for c, lw, jw in r["inexact"][:1]:
+                problems.append(("zstdmt serial LDM load", 0, dict(arena_mb=8, cmds=r["cmds"], why="index of the serial LDM window wrapped", case=list(c), LW=lw, JW=jw),
+                                 "ZSTDMT_serialState_reset with a raw-content prefix of %d bytes: the 32-bit index of serial.ldmState.window wrapped (LW=%s)" % (c[0], lw)))
+            for c, mod, real in r["mism"][:2]:
+                problems.append(("zstdmt serial LDM load tie", 0, dict(arena_mb=8, cmds=r["cmds"], case=str(c), model=str(mod), real=str(real)), None))
+            continue
+        if kind == "bigprefix":
+            ctx.count(("bigprefix", r["nbw"], r["prefix_mib"], r["ldm"], r["ok"]))
+            ctx.notes["bigprefix_run"] = {k: r[k] for k in ("rc", "nbw", "prefix_mib", "ldm", "wall", "ok", "out")}
+            if not r["ok"]:
+                problems.append(("zstdmt + LDM + prefix > 4 GiB", 0, dict(harness="c15_bigprefix", args=[r["nbw"], r["prefix_mib"], r["ldm"]], rc=r["rc"], out=r["out"], err=r["err"]),
+                                 "nbWorkers=%d, enableLongDistanceMatching, raw-content prefix of %d MiB: rc=%d %s" % (r["nbw"], r["prefix_mib"], r["rc"], r["out"][-200:])))
             continue
         if kind == "tie":
             lines = r["lines"]
@@ -1152,6 +1298,8 @@ def run(ctx):
         ctx.violation(dict(kind=kind, frequently=freq, detail=det), what="%s (build knob frequently=%d): %s" % (kind, freq, concrete), key=key)
     for rp, what in ldm_findings[:1]:
         ctx.violation(rp, what=what, key=KEY_LDM_TINY)
+    for rp, what in mt_findings[:1]:
+        ctx.violation(rp, what=what, key=KEY_MT_JOBS)
     concrete_seen = False
     for kind, freq, det, concrete in problems[:8]:
         if concrete and kind == "real-context oracle" and not concrete_seen:
